@@ -19,10 +19,12 @@ import time
 from concurrent.futures import ThreadPoolExecutor
 
 from checks import common
-from harness import tlc, c17_quant as cq, c17_match as cm
+from harness import tlc, c17_quant as cq, c17_match as cm, c17_alg as ca
 
 NFLAT, NITEMS, NWORDS = 95, 8411, 121  # mirrors of Quant.tla (checked against what QuantGen reports)
 QUANT_CLAUSES = ['RowInDomain', 'ReAccept', 'ReSpans', 'PfstAccept', 'PfstCaptures']
+ALG_CLAUSES = ['TermValid', 'NoException', 'MatchIsDenotation', 'SearchIsDenotedFilter']
+ALG_NA, ALG_NMEMBERS, ALG_NCTX = 22, 2024, 10  # mirrors of SearchAlg.tla (checked against what SearchAlgGen reports)
 MATCH_CLAUSES = ['NoException', 'StructureOnly', 'HistoryFree', 'OwnMatches', 'MutantRejected', 'SearchIsFilter', 'SearchTags']
 
 
@@ -213,9 +215,72 @@ def run_match(ctx):
                           'searches': sum(1 for t in traces for s in t['steps'] if s['k'] == 'search'),
                           'combinators': sorted(kinds), 'leaf_mutations': sorted(leafkinds), 'record_wall_s': round(rec_wall, 1)}
     need = {'M', 'MNOT', 'MOR', 'MAND', 'MTYPES', 'MRE', 'MCB', 'quant', 'top:MTAG', 'top:backref', 'top:type', 'top:...',
-            'top:str', 'top:re', 'top:prim', 'top:MNOT', 'top:MNOTx', 'top:MANDx', 'top:MOR3', 'backref-hit', 'top:MOR', 'top:MAND', 'top:MTYPES', 'top:MRE', 'top:MCB', 'top:M'}
+            'top:str', 'top:re', 'top:prim', 'top:MNOT', 'top:MNOTx', 'top:MANDx', 'top:MOR3', 'backref-hit', 'unify', 'top:MOR', 'top:MAND', 'top:MTYPES', 'top:MRE', 'top:MCB', 'top:M'}
     if need - kinds:
         raise common.Machinery(f'vacuity guard: combinators never generated: {sorted(need - kinds)}')
+
+
+# ----------------------------------------------------------------------------------------------------------------------
+# pattern algebra: search == filter(walk, Match) and pfst.match == Match, Match defined denotationally in SearchAlg.tla
+
+def run_alg(ctx):
+    ca.self_check_trees()
+    rng = random.Random(ctx.seed * 104729 + 5)
+
+    def mem(a, wr):  # member number of atom a (1-based) with wrapper 0 plain / 1 NOT / 2 M / 3 NOT NOT (mirror of SearchAlg!MemberOf)
+        return 4 * (a - 1) + wr + 1
+    if ctx.quick:
+        reps = [2, 6, 8, 10, 11, 15, 17, 20, 22]   # pure types (one, tuple, base) / field checks / callback, source / wildcard
+        ms = [mem(a, wr) for a in reps for wr in (0, 1)]
+        n_ids = 2500
+    else:
+        ms = [mem(a, wr) for a in range(1, ALG_NA + 1) for wr in (0, 1)]
+        n_ids = 40000
+    ctxs = list(range(1, ALG_NCTX + 1))
+    jobs = [{'prods': [{'c': [c], 'o': [1, 2], 'm1': ms, 'm2': ms, 'm3': [0]}], 'ids': []} for c in ctxs]
+    ids = [[rng.randint(1, ALG_NCTX), rng.randint(1, 2), rng.randint(1, ALG_NMEMBERS), rng.randint(1, ALG_NMEMBERS),
+            rng.choice([0, rng.randint(1, ALG_NMEMBERS)])] for _ in range(n_ids)]
+    jobs += [{'prods': [], 'ids': ids[i::6]} for i in range(6)]
+    t0 = time.time()
+    try:
+        rows, st = ca.gen_terms(jobs, nproc=16)
+    except tlc.TLCError as e:
+        raise common.Machinery(str(e)) from e
+    if st['consts'] != [(ALG_NA, ALG_NMEMBERS, ALG_NCTX)]:
+        raise common.Machinery(f'universe constants of SearchAlg.tla changed: {st["consts"]}')
+    gen_wall = time.time() - t0
+    rows.sort(key=lambda r: r['id'])
+    t0 = time.time()
+    steps = ca.replay_terms(rows, ctx.seed, nproc=16, ntrees=2 if ctx.quick else 3)
+    rep_wall = time.time() - t0
+    classes = set()
+    for r in rows:
+        classes.add(r['cls'])
+        ctx.distinct.add(('alg', r['cls']))
+    for s in steps:
+        ctx.evals += 1 + len(s['walk'])
+    tables = ca.batch_tables()
+    chunk = 400
+    traces = [{'id': k + 1, 'steps': steps[i:i + chunk]} for k, i in enumerate(range(0, len(steps), chunk))]
+    nb = min(16, len(traces))
+    batches = [dict(tables, traces=traces[b::nb]) for b in range(nb)]
+    verds = validate_parallel(ctx, batches, 'SearchAlgTrace', nproc=16, heap='1500m')
+    rowmap = {tuple(r['id']): r for r in rows}
+    for verd in verds:
+        for tid, v in verd.items():
+            for (l, clause, klass) in v['bad']:
+                s = traces[tid - 1]['steps'][l - 1]
+                ctx.violation(clause, klass, {'kind': 'alg', 'id': s['id'], 'tree': s['tree'], 'ntrees': 2 if ctx.quick else 3, 'observed': s,
+                                              'term': rowmap[tuple(s['id'])]['term']}, detail=json.dumps(s)[:1500])
+    ex = next((s for s in steps if s['found'] and len(s['found']) < len(s['walk'])), steps[0])
+    ctx.sample({'algebra_term': rowmap[tuple(ex['id'])]['cls'], 'id': ex['id'], 'tree': ex['tree'], 'found': ex['found'][:12]})
+    ctx.extra['algebra'] = {'terms': len(rows), 'asked': st['asked'], 'events': len(steps), 'classes': len(classes), 'trees': len(ca.TREES),
+                            'exhaustive': f'contexts x {{OR, AND}} x pairs of {len(ms)} members (atoms plain / negated)', 'sampled_ids': n_ids,
+                            'gen_wall_s': round(gen_wall, 1), 'replay_wall_s': round(rep_wall, 1)}
+    need = {'NOT:OR(pt,fc)', 'NOT:OR(fc,pt)', 'NOT:OR(pt,ix)', 'NOT:AND(pt,fc)', 'NOTNOT:OR(pt,fc)', 'AND(pt,NOT):OR(pt,fc)', 'M(NOT):OR(pt,fc)',
+            'NOT(M):OR(pt,fc)', 'bare:OR(!pt,fc)', 'NOT:OR(pt,!fc)', 'NOT:OR(w,fc)', 'OR(fc,NOT):AND(pt,pt)'}
+    if need - classes:
+        raise common.Machinery(f'vacuity guard: algebra classes never generated: {sorted(need - classes)}')
 
 
 # ----------------------------------------------------------------------------------------------------------------------
@@ -230,7 +295,7 @@ def run(ctx):
         'their definition, nesting depth 1); AtomicSubseq is the documented non-mixing of sub-sequence backtracking, (?>...) in re',
         'StructureOnly only for patterns without source-text sub-patterns (str / regex on nodes, MRE at node level are flagged src)',
         'SearchIsFilter with nested=False uses the documented pruning (PruneNested) and on=enter only']
-    parts = os.environ.get('C17_PARTS', 'mc,quant,match').split(',')  # development aid only; the default runs everything
+    parts = os.environ.get('C17_PARTS', 'mc,quant,match,alg').split(',')  # development aid only; the default runs everything
     cfg = 'QuantMC' if ctx.quick else 'QuantMC_thorough'
     if 'mc' in parts:
         ctx.model('QuantMC', cfg, required=('Second', 'PickFlat', 'PickSubseq'), workers=16, heap='4g')
@@ -240,6 +305,10 @@ def run(ctx):
     if 'match' in parts:
         run_match(ctx)
         ctx.require_clauses(MATCH_CLAUSES)
+    if 'alg' in parts:
+        ctx.model('SearchAlgMC', 'SearchAlgMC', required=('First', 'Pick'), workers=16, heap='4g')
+        run_alg(ctx)
+        ctx.require_clauses(ALG_CLAUSES)
     if not ctx.quick:
         ctx.exhaustive = False  # exhaustive sub-universe + samples, see coverage.quant.exhaustive
 
@@ -254,6 +323,13 @@ def replay(ctx, path):
         steps = cq.replay_rows(rows, items, ctx.seed, rp['ncont'], nproc=1)
         verd = ctx.validate({'traces': [{'id': 1, 'steps': steps}]}, module='QuantTrace')
         print('row', rows, '\nobserved', json.dumps(steps, indent=1)[:3000])
+        for (l, clause, klass) in verd[1]['bad']:
+            ctx.violation(clause, klass, rp)
+    elif rp['kind'] == 'alg':
+        rows, _ = ca.gen_terms([{'prods': [], 'ids': [rp['id']]}], nproc=1)
+        steps = [s for s in ca.replay_terms(rows, ctx.seed, nproc=1, ntrees=rp.get('ntrees', 3)) if s['tree'] == rp['tree']]
+        verd = ctx.validate(dict(ca.batch_tables(), traces=[{'id': 1, 'steps': steps}]), module='SearchAlgTrace')
+        print('term', json.dumps(rows[0])[:1500], '\nobserved', json.dumps(steps)[:2000])
         for (l, clause, klass) in verd[1]['bad']:
             ctx.violation(clause, klass, rp)
     else:
